@@ -46,9 +46,9 @@ type c16Case struct {
 
 const (
 	c16SSOps  = 22
-	c16CSOps  = 16
+	c16CSOps  = 18
 	c16NspOps = 16
-	c16MgrOps = 6
+	c16MgrOps = 10
 )
 
 func (c c16Case) class() string {
@@ -260,6 +260,14 @@ func (w *c16World) doCS(s sio.ClientSocket, code, arg int) {
 		o := s.Manager().Socket(fmt.Sprintf("/dyn%d", arg%3), nil)
 		o.Connect()
 		o.Emit(ev, arg)
+	case 16:
+		// another socket of the same manager leaves (its subscriptions to the manager's events are removed) ...
+		s.Manager().Socket(fmt.Sprintf("/dyn%d", arg%3), nil).Disconnect()
+	case 17:
+		// ... and comes back
+		o := s.Manager().Socket(fmt.Sprintf("/dyn%d", arg%3), nil)
+		o.OnceConnect(c16LC2)
+		o.Connect()
 	}
 }
 
@@ -288,6 +296,31 @@ func (w *c16World) doMgr(m *sio.Manager, code, arg int) {
 		m.OnceReconnectAttempt(c16MR)
 		m.OffReconnectAttempt()
 		m.OnPing(c16MO)
+	case 6:
+		// operations issued from inside the manager's own lifecycle handlers (once, so that open -> close -> open does not loop)
+		sock := m.Socket("/", nil)
+		switch arg % 4 {
+		case 0:
+			m.OnceOpen(func() { m.Close() })
+		case 1:
+			m.OnceOpen(func() { sock.Disconnect() })
+		case 2:
+			m.OnceOpen(func() { sock.Emit("x", arg); m.Socket(fmt.Sprintf("/dyn%d", arg%3), nil).Connect() })
+		case 3:
+			m.OnceOpen(func() { m.OnError(c16ME); m.OffError(); _ = sock.Connected() })
+		}
+	case 7:
+		sock := m.Socket("/", nil)
+		if arg%2 == 0 {
+			m.OnceClose(func(sio.Reason, error) { sock.Connect() })
+		} else {
+			m.OnceClose(func(sio.Reason, error) { m.Open(); sock.Emit("x", arg) })
+		}
+	case 8:
+		m.Socket(fmt.Sprintf("/dyn%d", arg%3), nil).Disconnect()
+	case 9:
+		m.OnceReconnect(func(uint32) { m.Socket("/", nil).Emit("x", arg) })
+		m.OnceError(func(error) { _ = m.Socket("/", nil).Active() })
 	}
 }
 
@@ -758,7 +791,7 @@ func TestC16_Programs(t *testing.T) {
 	setT(t)
 	realClock = true
 	ev := NewEv(t, "C16", c16Check, "rapid-generated concurrent programs on a real server + 1..3 real clients over memnet on the real clock, built with -race: 2..16 goroutines x 5..40 operations over "+
-		"ServerSocket (22 op kinds), ClientSocket (16), Namespace/Server/Adapter (16), Manager (6): emits with/without ack/timeout/volatile/binary, join/leave/rooms, broadcasts through sockets and namespaces, "+
+		"ServerSocket (22 op kinds), ClientSocket (18), Namespace/Server/Adapter (16), Manager (10, including Close / Disconnect / Connect / Open issued from inside OnceOpen and OnceClose handlers): emits with/without ack/timeout/volatile/binary, join/leave/rooms, broadcasts through sockets and namespaces, "+
 		"SocketsJoin/Leave/DisconnectSockets/FetchSockets, On/Once/Off of events and lifecycle handlers, Use, SetAuth, Connect/Disconnect/Open/Close, Server.Close; a third of the operations are performed from inside "+
 		"an event handler or an ack callback of the addressed side, five more from connection/disconnecting/disconnect/connect handlers; GOMAXPROCS in {1,2,4,16}; yields at the hook sites; "+
 		"oracle: no race report (runtime.RaceErrors delta per program; the report is read from the GORACE log), program + epilogue (every socket, manager and the namespace still operable, ack round trip) + teardown return "+
